@@ -23,7 +23,7 @@ type Job struct {
 	// This over-approximates behaviour, so "holds" verdicts stay sound for properties that do not depend on CRC values;
 	// a job that reports a violation under the abstraction is re-run with the exact CRC before anything is reported.
 	AbstractCRC bool
-	Tag     string
+	Tag         string
 }
 
 func (j Job) Key() string {
@@ -94,9 +94,9 @@ type RunOpts struct {
 	TimeoutMS   int
 	OpenKnown   map[string]bool
 	Seed        int64
-	SampleEvery int // sample every n-th completed path for native validation (0 = none)
+	SampleEvery int           // sample every n-th completed path for native validation (0 = none)
 	JobBudget   time.Duration // wall-clock budget per job (0 = none); exceeding it ends the job as inconclusive
-	Cross       int // cross-check every n-th query
+	Cross       int           // cross-check every n-th query
 	Log         func(string)
 }
 
